@@ -22,12 +22,14 @@ ASSUMPTIONS = ["all objects of one world agree per term kind on whether coeffici
                "elements are never compared across a LAMMPS restart (re-derived from masses: C14's subject)",
                "explicit zero offsets are used only between objects with identical type tables (as Atoms.replicate does)",
                "under an injected write fault the only demands are: the error surfaces, the in-memory object is unchanged, a clean retry succeeds"]
-NRUNS = {"quick": 2500, "thorough": 60000}
-MUST_REACH = ["restarts", "emptied_kind_then_extended", "all_atoms_deleted", "repeated_extension", "op_extend", "op_delete", "faults_fired"]
+NRUNS = {"quick": 6000, "thorough": 100000}
+MUST_REACH = ["restarts", "emptied_kind_then_extended", "all_atoms_deleted", "repeated_extension", "op_extend", "op_delete", "faults_fired", "history_replacements", "cif_restarts"]
 
 
 def generate(rng, tier):
-    spec = machine.gen_world(rng, nobj=(2, 4), nops=(4, 22), overlay=0.25, empty_prob=0.07)
+    w = {"copy": 1, "subset": 1, "delete": 4, "delete_touching": 2, "delete_all": 0.6, "pop": 1, "translate": 0.7, "extend": 6, "replicate": 1,
+         "restart": 2, "replace": 1.5}
+    spec = machine.gen_world(rng, nobj=(2, 4), nops=(4, 22), overlay=0.25, empty_prob=0.07, weights=w)
     faults = rng.random() < 0.3
     if faults:
         for op in spec["ops"]:
@@ -49,6 +51,17 @@ def execute(spec, ctx):
     for i, (r, m) in enumerate(zip(pool.real, pool.model)):
         if r is not None and len(m.atoms) and i < 3:
             restart.restart_lmpdat(ctx, fs, r, m, "final%d" % i, style="full", via_save="path", via_load="file", prefix="c09")
+    # ... and one object per history also goes through a CIF restart (what a CIF carries is compared; oracles of C15)
+    from . import c15
+    for i, (r, m) in enumerate(zip(pool.real, pool.model)):
+        if r is not None and len(m.atoms) and m.cell is not None and not any(len(set(t.atoms)) != len(t.atoms) for k in refmodel.KINDS for t in m.terms[k]):
+            mm = m.clone()
+            # per-improper extra columns have no place in a CIF; per-kind labels that are not CIF-like are still written verbatim
+            t1, p1 = c15._save(ctx, fs, r, "path", "cif%d" % i, True)
+            re1 = c15._load(ctx, fs, p1, "file")
+            c15._check_reload(ctx, re1, mm, True, "CIF restart at the end of a history")
+            ctx.count("cif_restarts")
+            break
     if changed and ctx.counters.get("comparisons", 0) >= 3:
         ctx.key(spec["objects"], spec["ops"])
 
